@@ -53,7 +53,7 @@ def gen_cases(tier, seed):
 def required(tier):
     return {"push.decided": 600, "push.class.pushdata1": 150, "push.class.pushdata2": 300, "push.class.pushdata4": 3,
             "rs.decided": 500, "ops.covered": 100, "wit.decided": 250, "wit.class.item>=253": 40, "wit.class.empty_stack": 40,
-            "tmpl.multisig": 136, "tmpl.redeem": 600, "tmpl.null_data": 81, "tmpl.simple": 300, "cli.scripts": 45, "cli.class.empty_witness_item": 5, "cli.class.leading_op0": 8,
+            "tmpl.multisig": 136, "tmpl.redeem": 600, "tmpl.null_data": 81, "tmpl.simple": 300, "cli.scripts": 45, "cli.class.empty_witness_item": 5, "cli.class.leading_op0": 8, "cli.class.one_byte_numeric_looking_data": 10,
             "contract:script.minimal_push": 1000}
 
 
@@ -208,6 +208,10 @@ def run_case(kind, params, ctx):
             argv = ["script", "--witness"] + items
         else:
             items = [rand_bytes(rng, rng.choice([1, 20, 33, 75, 76, 255, 256])).hex() if rng.random() < 0.5 else rng.choice(NAMES) for _ in range(max(1, params["n"]))]
+            # one-byte DATA items whose hex text looks like a number or the suffix of an opcode name ("10".."16", "01", "00", "4f", "51", "81"):
+            # on the command line they are data (a direct push), as through the API
+            items.insert(rng.randrange(len(items) + 1), ["10", "16", "11", "01", "00", "4f", "51", "81", "0a", "12"][params["salt"] % 10])
+            ctx.count("cli.class.one_byte_numeric_looking_data")
             if params.get("lead0"):
                 # scripts that START with OP_0 (every segwit scriptPubKey, every multisig scriptSig): the output's leading 00 byte(s) are data
                 items = ["OP_0"] * params["lead0"] + items
